@@ -75,9 +75,27 @@ pub struct Client {
     pub account_id: AccountId,
     pub gate: Gate,
     pub trace: Arc<std::sync::Mutex<Vec<String>>>,
+    /// when set, every request and response is encoded as on the wire and kept for scanning
+    pub wire: Option<Arc<std::sync::Mutex<Vec<Vec<u8>>>>>,
 }
 
 impl Client {
+    async fn tap<T: sos_protocol::WireEncodeDecode + Clone + Send + 'static>(&self, v: &T) {
+        if let Some(w) = &self.wire {
+            if let Ok(b) = v.clone().encode().await { w.lock().unwrap().push(b.to_vec()); }
+        }
+    }
+    fn tap_create_set(&self, cs: &CreateSet) {
+        if let Some(w) = &self.wire {
+            let mut buf: Vec<u8> = vec![];
+            for r in cs.identity.records() { buf.extend_from_slice(r.event_bytes()); }
+            for r in cs.account.records() { buf.extend_from_slice(r.event_bytes()); }
+            for r in cs.device.records() { buf.extend_from_slice(r.event_bytes()); }
+            for r in cs.files.records() { buf.extend_from_slice(r.event_bytes()); }
+            for (_, p) in cs.folders.iter() { for r in p.records() { buf.extend_from_slice(r.event_bytes()); } }
+            w.lock().unwrap().push(buf);
+        }
+    }
     async fn pass(&self, request: &'static str) {
         self.trace.lock().unwrap().push(format!("d{}:{}", self.device, request));
         if let Some(tx) = &self.gate.tx {
@@ -103,6 +121,7 @@ impl SyncClient for Client {
 
     async fn create_account(&self, account: CreateSet) -> Result<(), HErr> {
         self.pass("create").await;
+        self.tap_create_set(&account);
         let mut w = self.server.write().await;
         if w.is_some() {
             return Err(HErr::Other("conflict: account exists".into()));
@@ -131,7 +150,9 @@ impl SyncClient for Client {
         self.pass("fetch").await;
         let r = self.server.read().await;
         let s = r.as_ref().ok_or(HErr::Other("no account".into()))?;
-        Ok(s.create_set().await?)
+        let cs = s.create_set().await?;
+        self.tap_create_set(&cs);
+        Ok(cs)
     }
 
     async fn delete_account(&self) -> Result<(), HErr> {
@@ -145,37 +166,49 @@ impl SyncClient for Client {
         self.pass("status").await;
         let r = self.server.read().await;
         let s = r.as_ref().ok_or(HErr::Other("no account".into()))?;
-        Ok(s.sync_status().await?)
+        let st = s.sync_status().await?;
+        self.tap(&st).await;
+        Ok(st)
     }
 
     async fn sync(&self, packet: SyncPacket) -> Result<SyncPacket, HErr> {
         self.pass("sync").await;
+        self.tap(&packet).await;
         let mut w = self.server.write().await;
         let s = w.as_mut().ok_or(HErr::Other("no account".into()))?;
         let (packet, _outcome) =
             server_helpers::sync_account::<_, HErr>(packet, s).await?;
+        self.tap(&packet).await;
         Ok(packet)
     }
 
     async fn scan(&self, request: ScanRequest) -> Result<ScanResponse, HErr> {
         self.pass("scan").await;
+        self.tap(&request).await;
         let r = self.server.read().await;
         let s = r.as_ref().ok_or(HErr::Other("no account".into()))?;
-        Ok(server_helpers::event_scan::<_, HErr>(&request, s).await?)
+        let res = server_helpers::event_scan::<_, HErr>(&request, s).await?;
+        self.tap(&res).await;
+        Ok(res)
     }
 
     async fn diff(&self, request: DiffRequest) -> Result<DiffResponse, HErr> {
         self.pass("diff").await;
+        self.tap(&request).await;
         let r = self.server.read().await;
         let s = r.as_ref().ok_or(HErr::Other("no account".into()))?;
-        Ok(server_helpers::event_diff::<_, HErr>(&request, s).await?)
+        let res = server_helpers::event_diff::<_, HErr>(&request, s).await?;
+        self.tap(&res).await;
+        Ok(res)
     }
 
     async fn patch(&self, request: PatchRequest) -> Result<PatchResponse, HErr> {
         self.pass("patch").await;
+        self.tap(&request).await;
         let mut w = self.server.write().await;
         let s = w.as_mut().ok_or(HErr::Other("no account".into()))?;
         let (res, _outcome) = server_helpers::event_patch::<_, HErr>(request, s).await?;
+        self.tap(&res).await;
         Ok(res)
     }
 }
